@@ -2506,6 +2506,12 @@ static void setDecodeDefaults(tjinstance *this, int pixelFormat)
   this->dinfo.saw_JFIF_marker = FALSE;
   this->dinfo.saw_Adobe_marker = FALSE;
   this->dinfo.Adobe_transform = 0;
+  /* Likewise, the frame type is normally set by the SOF marker.  The simulated
+   * image is a baseline one, whatever the instance decompressed before.
+   */
+  this->dinfo.progressive_mode = FALSE;
+  this->dinfo.arith_code = FALSE;
+  this->dinfo.master->lossless = FALSE;
 
   this->dinfo.comp_info = (jpeg_component_info *)
     (*this->dinfo.mem->alloc_small) ((j_common_ptr)&this->dinfo, JPOOL_IMAGE,
